@@ -136,6 +136,9 @@ def analyse(R, runner, trace, tag):
                     "fetch_not_retried": "an advertisement fetch of the real router failed (NACK / timeout) and was not re-issued although the neighbour's sequence number is still the latest known: that advertisement is never fetched (later Sync Interests with the same number are 'nothing changed')",
                     "route_via_non_neighbour": "the real router holds a usable cost through somebody who is not in its neighbour table (e.g. an update that started before the dead sweep and finished after it re-installed the removed neighbour's destinations from what it had read before taking the lock); nothing will ever withdraw it",
                     "stale_snapshot_applied": "an update of the real router applied an older advertisement than the one current when it held the router lock (a newer advertisement was overtaken)",
+                    "table_changed_while_quiet": "with stable links and every heartbeat delivered (latency varying below dead - advertise interval) a real router withdrew or changed something during a quiet run of more than five dead intervals (e.g. a live neighbour was declared dead and re-learnt)",
+                    "heartbeat_too_slow": "the observed period of a real router's Sync Interests plus the latency variation is not below the dead interval: live neighbours get declared dead",
+                    "proto_not_fixed": "long after the last physical change some real router still has not processed a neighbour's current advertisement (its stored costs through that neighbour are not what the neighbour now offers) although the link is up",
                     "no_quiescence": "the notification-driven schedule of the real routers did not come to rest",
                     "harness": "the harness saw an ill-formed table/advertisement"}.get(which, which)
             rep = dict(case=p[2], detail=detail[:3000], ops=ops[-6000:], trace_line=ln)
@@ -203,7 +206,10 @@ def run_proto(R, exe, runner, n, seed):
             # the case this line belongs to
             start = max(k for k in range(ln) if lines[k].startswith("case "))
             ctx = [x for x in lines[start:ln] if x.startswith(("case", "node", "phys", "chkphys"))]
-            what = {"neighbours": "after waiting longer than the dead interval the real routers' neighbour tables are not the physical topology",
+            what = {"table_changed_while_quiet": "with stable links and every heartbeat delivered a real router withdrew or changed something during a quiet run of more than five dead intervals",
+                    "heartbeat_too_slow": "the observed period of a real router's Sync Interests plus the latency variation is not below the dead interval",
+                    "proto_not_fixed": "long after the last physical change some real router has not processed a neighbour's current advertisement although the link is up (a lost fetch was never retried)",
+                    "neighbours": "after waiting longer than the dead interval the real routers' neighbour tables are not the physical topology",
                     "table_ok_proto": "the real routers (running their own Start loops) did not reach the shortest-path tables of the physical topology",
                     "adv_ok": "an advertisement of the real router lists a destination whose best cost is >= infinity"}.get(which, which)
             R.oracle_failure("proto:%s:%s" % (which, hashlib.sha1(detail.encode()).hexdigest()[:10]), what,
